@@ -284,3 +284,40 @@ func (g *c02) labelMismatch() {
 		}
 	})
 }
+
+// ---------- known_hosts: host pattern lists and markers ----------
+
+// sshd(8) SSH_KNOWN_HOSTS FILE FORMAT: an optional marker (@cert-authority, @revoked), a comma-separated
+// pattern list ('*' and '?' wildcards, '!' negation, [host]:port, or one hashed name), key type, key, comment
+func (g *c02) hostPatterns() {
+	r := g.c.R
+	lists := []string{
+		"host.example",
+		"!bad.example,*.example",
+		"h?st-??.example.org",
+		"[2001:db8::1]:2222,[host.example]:22",
+		"192.0.2.1,192.0.2.2,192.0.2.3,198.51.100.0,203.0.113.7,a,b,c,d,e,f,g",
+		"xn--mnchen-3ya.example,münchen.example",
+		"*",
+		"|1|F1E1KeoE/eEWhi10WpGv4OdiO6Y=|3988QV0VE8wmZL7suNrYQLITLCg=",
+		"UPPER.Example.ORG,host.example.",
+	}
+	g.sample(4, func() {
+		pubs := g.sshPubs()
+		for i, hosts := range lists {
+			for j, marker := range []string{"", "@cert-authority ", "@revoked "} {
+				p := pubs[(i+j)%len(pubs)]
+				comment := genComment(r, 1)
+				cm := kv{"Comment", comment}
+				line := marker + hosts + " " + p.typ + " " + base64.StdEncoding.EncodeToString(p.blob)
+				if comment == "" {
+					cm = absent("Comment")
+				} else {
+					line += " " + comment
+				}
+				g.knownhosts(fmt.Sprintf("hosts-%d-m%d", i, j), []byte(line),
+					p.spec([]kv{{"Hosts", strings.ReplaceAll(hosts, ",", ", ")}, {"Type", p.typ}, cm}))
+			}
+		}
+	})
+}
